@@ -162,7 +162,9 @@ def run(chk, prog):
     eva = Evaluator(prog)
     eva.opaque_funcs.add("normal_score")
     ra_ = eva.eval_fn(amf, mm_)
-    oka_ = is_call(ra_.ret, "sum") and any(is_t(x, "treemap") and x[2] == (P("momenta"),) and is_call(x[1], "normal_score") and x[1][2] in ((("bin", "*", P("mul"), ("leaf", P("momenta"))),), (("bin", "*", ("leaf", P("momenta")), P("mul")),)) for x in subterms(ra_.ret))
+    lvm_ = ("call", ("global", "jax.tree_util.tree_leaves"), (P("momenta"),), ())
+    elm_ = ("elem", lvm_)
+    oka_ = is_call(ra_.ret, "sum") and any(is_t(x, "fam") and x[1] == lvm_ and is_call(x[2], "normal_score") and x[2][2] in ((("bin", "*", P("mul"), elm_),), (("bin", "*", elm_, P("mul")),)) for x in subterms(ra_.ret))
     chk.require(oka_, "ALPHA", "assess_momenta", "sum over leaves of the standard-normal log density of mul * momentum", derived=show(ra_.ret)[:240], expected="sum(normal_score(mul * v) for every leaf)", where=f"{mm_.rel}:{amf.lineno}")
     # normal_score(v): the standard-normal log density of the WHOLE leaf v, summed over its elements: sum(Normal(0, 1).log_prob(v)), or its closed form
     # -0.5 * (sum(v ** 2) + n * log(2 pi)) - the square inside the sum
@@ -189,7 +191,20 @@ def run(chk, prog):
     hc = prog.cls("HMC", MOD)
     chk.require(hc.fields == ["selection", "eps", "L"], "DELEG-ROLE", "HMC/fields", "field order", derived=str(hc.fields), expected="selection, eps, L", where=f"{hc.module.rel}:{hc.node.lineno}")
     lens = [x for x in subterms(r.ret) if is_t(x, "scanfinal")]
-    chk.require(sc.length == ("attr", P("self"), "L") and is_t(sc.xs, "bin") and mentions(sc.xs, ("attr", P("self"), "L")), "DELEG-ROLE", "HMC.edit/steps", "L leapfrog steps", derived=f"length={show(sc.length)} xs={show(sc.xs)[:80]}", expected="scan(kernel, ..., arange(L) + 1, length=L)", where=where)
+    def _n_seeds(t):
+        """number of per-step seeds: arange(n) / arange(a, b), possibly shifted elementwise by a constant -> linear form of the length"""
+        while is_t(t, "bin") and t[1] in ("+", "-") and (is_t(t[2], "const") or is_t(t[3], "const")):
+            t = t[3] if is_t(t[2], "const") else t[2]
+        if is_call(t, "arange") and not t[3]:
+            if len(t[2]) == 1:
+                return lin(t[2][0])
+            if len(t[2]) == 2:
+                d = dict(lin(t[2][1]))
+                for k_, v_ in lin(t[2][0]).items():
+                    d[k_] = d.get(k_, 0) - v_
+                return {k_: v_ for k_, v_ in d.items() if v_ != 0}
+        return None
+    chk.require(sc.length == ("attr", P("self"), "L") and _n_seeds(sc.xs) == lin(("attr", P("self"), "L")), "DELEG-ROLE", "HMC.edit/steps", "L leapfrog steps", derived=f"length={show(sc.length)} xs={show(sc.xs)[:80]}", expected="scan(kernel, ..., arange(L) + 1, length=L)", where=where)
     # ---- ALPHA
     fa = lin(alpha)
     fin_t = ("scanfinal", sid, i_tr)
